@@ -340,20 +340,25 @@ func runCLI(dir string, pkgArgs []string) (lines []string, code int, err error) 
 
 func cliStream(meta *common.Meta, tier string, seed int64, s1 []*fw.Pkg) {
 	rng := common.NewRand(seed, "c03-cli")
-	rounds, k := 1, 7
+	rounds, k := 1, 10
 	if tier == "thorough" {
 		rounds, k = 8, 12
 	}
 	runs := 0
 	for r := 0; r < rounds; r++ {
-		perm := rng.Perm(len(s1))
-		var args []string
-		for _, i := range perm[:k] {
-			args = append(args, "./checkers/testdata/"+s1[i].Name)
-		}
-		// always include stateful checkers' own examples in the first round
+		// packages that one go-critic process can load together (see fw.Batches), stateful checkers' own examples first
+		pool := append([]*fw.Pkg(nil), s1...)
+		rng.Shuffle(len(pool), func(i, j int) { pool[i], pool[j] = pool[j], pool[i] })
 		if r == 0 {
-			args = append(args, "./checkers/testdata/ifElseChain", "./checkers/testdata/dupCase", "./checkers/testdata/typeDefFirst")
+			sort.SliceStable(pool, func(i, j int) bool { return pri(pool[i].Name) < pri(pool[j].Name) })
+		}
+		batch := fw.Batches(pool)[0]
+		if len(batch) > k {
+			batch = batch[:k]
+		}
+		var args []string
+		for _, p := range batch {
+			args = append(args, "./checkers/testdata/"+p.Name)
 		}
 		base, code0, err := runCLI(common.RepoDir, args)
 		runs++
@@ -398,6 +403,14 @@ func cliStream(meta *common.Meta, tier string, seed int64, s1 []*fw.Pkg) {
 		}
 	}
 	meta.Distribution["cli_runs"] = runs
+}
+
+func pri(name string) int {
+	switch name {
+	case "ifElseChain", "dupCase", "typeDefFirst", "boolExprSimplify", "typeSwitchVar":
+		return 0
+	}
+	return 1
 }
 
 func diffLines(a, b []string) []string {
